@@ -2,6 +2,8 @@ import PdshVerif.Dsh.FanLive
 import PdshVerif.Dsh.FanExec
 import PdshVerif.Dsh.FanGLive
 import PdshVerif.Dsh.FanGExec
+import PdshVerif.Dsh.FanRelay
+import PdshVerif.Props.C05
 
 /-!
 # C03 — every target gets exactly one command; pdsh ends when all are done
@@ -364,5 +366,56 @@ example : (run (init .whileWait 1 2)
     some (.returned, [.done, .done]) := by decide
 
 end G
+
+/-! ## end to end: "returns only after every started command has finished and its output has been delivered"
+
+The protocol LTS (every signalling discipline) composed with the relay of property C05 (`Dsh/FanRelay.lean`): relay
+events of a target's streams happen while its worker is in the poll / read loop, the worker leaves the loop when
+its polled streams have finished, everything else is free.  The relay theorem `C05.relay_lossless_any_interleaving`
+is IMPORTED, not assumed. -/
+namespace EndToEnd
+open PdshVerif.Dsh PdshVerif.Dsh.FanRelay PdshVerif.Relay
+
+/-- C03, whole statement, for every fanout ≥ 0, number of targets, schedule of dispatcher, workers and relay
+    events, cutting of the output into chunks, number of spurious wake-ups, wait construct and signalling
+    discipline: when dsh() has returned, for every target `i` the command was started exactly once and torn down
+    exactly once, and for each of its polled streams the stdio calls found in the GLOBAL output (all hosts
+    interleaved) write exactly what the remote side sent on that stream, complete, in order, once, under `i`'s label
+    (for contents in the relay's domain `Dom05`: no NUL byte, bounded line length, no rc marker split across the
+    buffer — see Props/C05). -/
+theorem returns_after_output_delivered (cfg : Cfg) (names : Nat → Bytes) {sizeMeta : Nat} (hm1 : 1 ≤ sizeMeta)
+    (hm2 : sizeMeta ≤ 800) {b0 : PBuf} (hb0 : mkFifoBuf sizeMeta = some b0)
+    {v : FanG.Variant} {f n : Nat} {sopt : Bool} {ls : List FanRelay.Label} {s : FanRelay.St}
+    (he : FanRelay.Exec (FanRelay.init v f n sopt) ls s) (hf : FanG.Final s.fan) (i : Nat) (hi : i < n)
+    (strm : Bool) (hstrm : strm = true → sopt = true)
+    (hdom : Spec.Dom05 (markerOf (!strm)) (chunksOf s.evs (i, strm)).flatten = true) :
+    (ls.filterMap projLabel).count (.w i .connectBegin) = 1 ∧
+    (ls.filterMap projLabel).count (.w i .destroyEnd) = 1 ∧
+    PdshVerif.C05.written (logOf (s.evs.foldl (gstep fifoOps cfg names) (ginit b0)) (i, strm)) =
+      Spec.render (labelPrefix cfg.labels cfg.keep (names i)) (chunksOf s.evs (i, strm)).flatten := by
+  have hfe := fan_refinement he
+  have h1 := G.exit_after_all hfe hf i hi
+  refine ⟨h1.1, h1.2.1, ?_⟩
+  have hk := final_streams_complete he hf i hi strm hstrm
+  exact PdshVerif.C05.relay_lossless_any_interleaving cfg names hm1 hm2 hb0 s.evs (i, strm)
+    (chunksOf s.evs (i, strm)) hk hdom
+
+/-- non-vacuity of the composed system: one target, fanout 1; the worker connects, two chunks arrive on stdout, the
+    stream finishes, the worker tears down, unlocks FIRST and signals late; dsh() returns -/
+def demoTrace : List FanRelay.Label :=
+  [.fan (.d .lock), .fan (.d (.create 0)), .fan (.d .unlock), .fan (.w 0 .connectBegin), .fan (.w 0 .connectEnd),
+   .ev (0, false) (.feed [104, 105]), .ev (0, false) (.feed [10]), .ev (0, false) .finish,
+   .fan (.w 0 .destroyBegin), .fan (.w 0 .destroyEnd), .fan (.w 0 .lock), .fan (.w 0 .unlockFirst),
+   .fan (.d .lock), .fan (.d .unlock), .fan (.d .ret)]
+
+example : ∃ s, FanRelay.Exec (FanRelay.init .whileWait 1 1 false) demoTrace s ∧ FanG.Final s.fan ∧
+    chunksOf s.evs (0, false) = [[104, 105], [10]] := by
+  have h : (FanRelay.run (FanRelay.init .whileWait 1 1 false) demoTrace).map
+      (fun s => (s.fan.dpc, chunksOf s.evs (0, false))) = some (.returned, [[104, 105], [10]]) := by decide
+  cases hr : FanRelay.run (FanRelay.init .whileWait 1 1 false) demoTrace with
+  | none => rw [hr] at h; cases h
+  | some s => rw [hr] at h; simp at h; exact ⟨s, exec_of_run hr, h.1, h.2⟩
+
+end EndToEnd
 
 end PdshVerif.Props.C03
